@@ -619,7 +619,119 @@ def f_tabevt(rng, sid):
     return sc
 
 
+def f_holdtick(rng, sid):
+    """a held command is released while unsolicited events keep coming (each event's handler triggers
+    the next one): the result code must not wait for the event stream to dry up"""
+    sep = rng.random() < 0.5
+    sc = Scenario(sid, cap=rng.choice([1, 2, 3]), buf=64 if sep else 128, uns=rng.choice([32, 64]) if sep else -1, mutex=0)
+    sc.group()
+    a = sc.slot(1, b"\x05")
+    sc.cmd(Cmd(b"+U", None, "r", [Var(1, a, 1)], group=0))
+    sc.cmd(Cmd(b"+X", None, "wxrt", None, group=0))
+    sc.cmd(Cmd(b"+N", None, "x", None, group=0))
+    nl = rng.choice([b"\n", b"\r\n"])
+    sc.inp(rng.choice([b"AT+X", b"AT+X?", b"AT+X=1", b"AT+X=?"]) + nl + b"AT+N" + nl)
+    for _ in range(40):
+        sc.op("svc 1 1 h=4")                     # the command's handler answers HOLD
+    sc.op("hold")
+    sc.op("trigr 0")
+    tick = rng.choice(["0/t:0:1", "0/t:0:1", "1/t:0:1", "3/t:0:1"])
+    for _ in range(rng.randint(0, 25)):
+        sc.op("svc 1 1 h=%s" % tick)
+    sc.op("hexit %d" % rng.choice([0, 1]))
+    bound = 2 * (sc.buf + max(sc.uns, 0)) + 100
+    for _ in range(bound + 60):
+        sc.op("svc 1 1 h=%s,3" % tick)            # events go on; the released command's successor answers OK
+    for _ in range(30):
+        sc.op("svc 1 1 h=3,3")
+    drain(sc, 3000)
+    quiesce_probe(sc)
+    return sc
+
+
+def f_flagmid(rng, sid):
+    """disable flags set while a line is being typed (after the AT prefix, before the name is
+    terminated) and kept until the line has been answered: the command must be invisible to it"""
+    n = rng.choice([3, 5, 9, 17])
+    ngroups = rng.randint(1, 3)
+    sc = Scenario(sid, cap=1, buf=2 * max(24, n), uns=-1, mutex=0)
+    for g in range(ngroups):
+        sc.group(None, False)
+    stem = [bytes(rng.choice(gen.ALPHA) for _ in range(rng.randint(1, 2))) for _ in range(3)]
+    per = [(n * (g + 1)) // ngroups - (n * g) // ngroups for g in range(ngroups)]
+    pool = []
+    for g in range(ngroups):
+        for _ in range(per[g]):
+            nm = b"+" + rng.choice(stem) + bytes(rng.choice(gen.ALPHA) for _ in range(rng.randint(1, 3)))
+            pool.append(nm)
+            v = None
+            if rng.random() < 0.4:
+                v = [Var(1, sc.slot(1, b"\x2a"), 1, 0, None, rng.choice([0, 2]))]
+            sc.cmd(Cmd(nm, None, "wrxt", v, group=g))
+    for _ in range(rng.randint(3, 8)):
+        ci = rng.randrange(len(sc.cmds))
+        c = sc.cmds[ci]
+        nm = c.name.upper()
+        typed = nm if rng.random() < 0.6 else nm[:rng.randint(2, len(nm))]
+        cut = rng.randint(2, 2 + len(typed))      # after "AT", somewhere inside the name
+        line = b"AT" + typed
+        sfx = rng.choice([b"", b"?", b"=7", b"=?", b"="])
+        sc.inp(line[:cut])
+        drain(sc, 20 * n + 200)
+        # disable the addressed command, a command it is a prefix of, or a whole group
+        r = rng.random()
+        undo = None
+        if r < 0.55:
+            sc.op("flag c %d dis 1" % ci); undo = "flag c %d dis 0" % ci
+        elif r < 0.8:
+            gi = c.group
+            sc.op("flag g %d 1" % gi); undo = "flag g %d 0" % gi
+        else:
+            cj = rng.randrange(len(sc.cmds))
+            sc.op("flag c %d dis 1" % cj); undo = "flag c %d dis 0" % cj
+        sc.inp(line[cut:] + sfx + b"\n")
+        drain(sc, 40 * n + 800)
+        if rng.random() < 0.7:
+            sc.op(undo)
+    return sc
+
+
+def f_woevt(rng, sid):
+    """a solicited READ/TEST of one command overlapping, call by call, with an unsolicited read event of
+    another: variables of all access modes on both sides, write-only storage non-zero (a value
+    formatted by one machine with the other machine's access decision shows up in the output)"""
+    sep = rng.random() < 0.5
+    sc = Scenario(sid, cap=rng.choice([1, 2]), buf=rng.choice([96, 160]) * (1 if sep else 2), uns=rng.choice([96, 160]) if sep else -1, mutex=0)
+    sc.group()
+    for k in range(2):
+        c = _numcmd(rng, sc, nvars=rng.randint(2, 4), types=(0, 1, 2, 3, 4), accs=(0, 1, 2, 2), name=b"+W%d" % k)
+        c.h = ""
+        c.need_all = False
+        for v in c.vars:
+            v.cb = 0
+        c.vars[0].acc = 0
+        sc.cmd(c)
+    for c in sc.cmds:
+        for v in c.vars:
+            if v.acc == 2:
+                ln = sc.slots[v.slot][0]
+                sc.slots[v.slot] = (ln, bytes(rng.choice(b"0123456789abcdefXYZ\x01\x7f\xfe") for _ in range(ln)))
+    for _ in range(rng.randint(2, 5)):
+        a = rng.randrange(2)
+        sc.inp(b"AT" + sc.cmds[a].name + rng.choice([b"?", b"?", b"=?"]) + b"\n")
+        for _ in range(rng.randint(0, 30)):
+            sc.op("svc 1 1")
+        sc.op("trigr %d" % rng.choice([1 - a, 1 - a, a]))
+        if rng.random() < 0.3:
+            for _ in range(rng.randint(0, 12)):
+                sc.op("svc 1 %d" % (rng.random() < 0.8))
+            sc.inp(b"AT" + sc.cmds[1 - a].name + b"?\n")
+        drain(sc, 3000)
+    return sc
+
+
 FAMILIES = {
+    "woevt": f_woevt, "flagmid": f_flagmid, "holdtick": f_holdtick,
     "mixed": f_mixed, "lines": f_lines, "table": f_table, "num": f_num, "buf": f_buf, "cap": f_cap, "ret": f_ret,
     "sched": f_sched, "evt": f_evt, "hold": f_hold, "mutex": f_mutex, "list": f_list, "access": f_access,
     "fit": f_fit, "bigambig": f_bigambig, "tabevt": f_tabevt,
@@ -641,13 +753,13 @@ PLAN = {
     "C05": [("buf", 120, 2000), ("lines", 30, 300), ("mixed", 20, 200)],
     "C06": [("cap", 100, 1200), ("lines", 30, 300), ("ret", 30, 300), ("mixed", 20, 200)],
     "C07": [("access", 60, 800), ("fit", 100, 1500), ("lines", 40, 400), ("mixed", 20, 200)],
-    "C08": [("access", 100, 1200), ("lines", 30, 300), ("mixed", 20, 200)],
-    "C09": [("lines", 100, 1200), ("table", 40, 400), ("tabevt", 20, 300), ("mixed", 30, 300)],
+    "C08": [("access", 100, 1200), ("woevt", 40, 500), ("lines", 30, 300), ("mixed", 20, 200)],
+    "C09": [("lines", 100, 1200), ("table", 40, 400), ("flagmid", 40, 500), ("tabevt", 20, 300), ("mixed", 30, 300)],
     "C10": [("ret", 200, 3000), ("lines", 30, 300), ("mixed", 30, 300)],
     "C11": [("evt", 60, 700), ("mixed", 60, 700), ("sched", 30, 300), ("list", 20, 200)],
     "C12": [("sched", 100, 1200), ("mixed", 30, 300)],
     "C13": [("evt", 100, 1200), ("mixed", 40, 400), ("hold", 20, 200)],
-    "C14": [("hold", 100, 1200), ("mixed", 40, 400)],
+    "C14": [("hold", 100, 1200), ("holdtick", 10, 100), ("mixed", 40, 400)],
     "C15": [("mixed", 60, 700), ("evt", 50, 500), ("lines", 30, 300), ("hold", 20, 200), ("list", 10, 100)],
     "C16": [("mutex", 100, 1200), ("mixed", 40, 400)],
     "C17": [("mutex", 60, 600), ("evt", 40, 400)],
@@ -785,10 +897,17 @@ def meta_C07(seed, tier, bins, n=None):
         sc = Scenario("C07-rt-%d-%d" % (seed, k), cap=1, buf=2 * rng.choice([64, 128, 256]), mutex=0)
         sc.group()
         vs = []
-        for _ in range(rng.randint(1, 5)):
-            t = rng.randrange(5)
+        stringy = rng.random() < 0.3       # several string variables full of separators, quotes and backslashes
+        for _ in range(rng.randint(2, 4) if stringy else rng.randint(1, 5)):
+            t = 4 if (stringy and rng.random() < 0.8) else rng.randrange(5)
             size = rng.choice([1, 2, 4]) if t < 3 else rng.choice([1, 2, 3, 4, 8, 16])
-            if t == 4:
+            if t == 4 and stringy:
+                kk = rng.randint(0, size - 1)
+                init = bytes(rng.choice(b'\\\\",,,a') for _ in range(kk)) + bytes(size)
+                if kk and rng.random() < 0.5:
+                    init = init[:kk - 1] + b"\\" + bytes(size)
+                init = init[:size]
+            elif t == 4:
                 kk = rng.randint(0, size - 1)
                 init = bytes(rng.choice([x for x in range(1, 256) if x != 13]) if rng.random() < 0.5 else rng.choice(b'a"\\\n,z\t ') for _ in range(kk)) + bytes(size)
                 init = init[:size]
@@ -852,7 +971,7 @@ def meta_C07(seed, tier, bins, n=None):
 def meta_C08(seed, tier, bins, n=None):
     """two runs that differ only in the contents of write-only variables produce identical output"""
     n = n or (60 if tier == "quick" else 800)
-    a = generate(seed, "access", n, prefix="C08-twin")
+    a = generate(seed, "access", n, prefix="C08-twin") + generate(seed, "woevt", max(20, n // 2), prefix="C08-wotwin")
     b = []
     rng = random.Random(repr((seed, "C08-twin")))
     for sc in a:
